@@ -47,6 +47,7 @@ PROPS = {
     },
     'C04': {
         'modules': FS_MODULES,
+        'thorough_env': {'PYVC_INDEX_PROOF': '1'},
         'lemmas': ['contracts.fs_load:lemma_extremal', 'contracts.lemmas:lemma_header_roundtrip'],
         'level': 'proof',
         'bounded': [
@@ -64,7 +65,9 @@ PROPS = {
                 'greatest tid below, successor = least tid not below); record and transaction header codecs '
                 'proved inverse; store/deleteObject proved to stage the exact record image; tpc_begin proved '
                 'to choose a tid later than every earlier one whatever the clock returns; read_index proved to '
-                'return the committed end and the tid of the last accepted transaction.',
+                'return the committed end and the tid of the last accepted transaction; thorough tier only: '
+                'read_index proved to rebuild the index as "every oid -> its LAST record below the committed end" '
+                '(nested-loop invariant over the record tiling).',
         'note': 'RI (chains) is assumed by the query contracts; its preservation by finish is argued by lemma over '
                 'the store/vote/finish postconditions only in part; iterator/history/undoLog, MappingStorage and '
                 'DemoStorage queries and the index rebuilt by read_index are covered by the bounded stand-in only.',
